@@ -856,3 +856,117 @@ func SortedKeys[T any](m map[string]T) []string {
 	sort.Strings(out)
 	return out
 }
+
+// ReachFromTracked is ReachFrom restricted to feasible paths: the values of
+// local variables that are assigned constants (flags, enumerations such as
+// "role = owner ... switch role") are tracked along each path and the
+// branches that test them are taken accordingly.  Without such variables the
+// result equals ReachFrom.  Variables assigned in function literals or whose
+// address is taken are not tracked; on state explosion the tracking is given
+// up (plain reachability, a superset).
+func (g *Graph) ReachFromTracked(from *V, startAt bool, avoid *Avoid) map[*V]bool {
+	env := &ByteEnv{Info: g.Info, Tables: map[types.Object][]int64{}}
+	if g.Fn != nil {
+		env.Prog = g.Fn.Prog
+	}
+	var skip *ast.FuncLit
+	var body ast.Node = g.Body
+	if g.Fn != nil && g.Fn.Decl != nil && g.Fn.Decl.Body != nil {
+		if g.Body != g.Fn.Decl.Body {
+			ast.Inspect(g.Fn.Decl.Body, func(n ast.Node) bool {
+				if l, ok := n.(*ast.FuncLit); ok && l.Body == g.Body {
+					skip = l
+				}
+				return true
+			})
+		}
+		body = g.Fn.Decl.Body
+	}
+	unt := untracked(env.Info, body, skip)
+	env.unt = unt
+	defer func() { env.unt = nil; env.cur = nil }()
+	type item struct {
+		x     *V
+		store map[types.Object]int64
+	}
+	out := map[*V]bool{}
+	seen := map[string]bool{}
+	var stack []item
+	push := func(x *V, st map[types.Object]int64) {
+		if avoid.v(x) {
+			return
+		}
+		k := storeKey(x, st)
+		if !seen[k] {
+			seen[k] = true
+			stack = append(stack, item{x, st})
+		}
+	}
+	if startAt {
+		push(from, nil)
+	} else {
+		env.cur = nil
+		st := env.step(from, nil, 0, unt)
+		env.cur = st
+		take := EdgeNone
+		if from.Cond != nil {
+			take = env.evalCond(from.Cond, 0)
+		}
+		for _, e := range from.Succs {
+			if take != EdgeNone && e.Label != EdgeNone && e.Label != take {
+				continue
+			}
+			if avoid.e(from, e.Label) {
+				continue
+			}
+			push(e.To, st)
+		}
+	}
+	for len(stack) > 0 {
+		it := stack[len(stack)-1]
+		stack = stack[:len(stack)-1]
+		x := it.x
+		out[x] = true
+		env.cur = it.store
+		store := env.step(x, it.store, 0, unt)
+		env.cur = store
+		take := EdgeNone
+		if x.Cond != nil {
+			take = env.evalCond(x.Cond, 0)
+		}
+		for _, e := range x.Succs {
+			if take != EdgeNone && e.Label != EdgeNone && e.Label != take {
+				continue
+			}
+			if avoid.e(x, e.Label) {
+				continue
+			}
+			push(e.To, store)
+		}
+		if len(seen) > 50000 {
+			return g.reachPlain(from, startAt, avoid)
+		}
+	}
+	return out
+}
+
+// DominatesTracked reports whether every feasible path (see
+// ReachFromTracked) from the entry to site passes d.
+func (g *Graph) DominatesTracked(d, site *V) bool {
+	if d == site || g.Dominates(d, site) {
+		return true
+	}
+	return !g.ReachFromTracked(g.Entry, true, AvoidVs(d))[site]
+}
+
+// MustPassBeforeTracked: every feasible path from `from` to one of targets
+// passes one of via.
+func (g *Graph) MustPassBeforeTracked(from *V, targets []*V, via []*V) bool {
+	r := g.ReachFromTracked(from, false, AvoidVs(via...))
+	for _, t := range targets {
+		if r[t] {
+			return false
+		}
+	}
+	return true
+}
